@@ -705,7 +705,7 @@ func (in *Interp) next(x *ssa.Next, it *rangeIter) Value {
 		}
 		return Tuple{tTrue, it.m.Keys[k], it.m.Vals[k]}
 	}
-	return Tuple{tFalse, zeroValue(tt.At(1).Type()), zeroValue(tt.At(2).Type())}
+	return Tuple{tFalse, safeZero(tt.At(1).Type()), safeZero(tt.At(2).Type())}
 }
 
 func (in *Interp) typeAssert(x *ssa.TypeAssert, iv IfaceVal) Value {
@@ -1824,4 +1824,11 @@ func (in *Interp) builtin(b *ssa.Builtin, args []Value, c *ssa.CallCommon) Value
 	}
 	in.end("unsupported", "builtin "+b.Name())
 	return nil
+}
+
+func safeZero(t types.Type) Value {
+	if b, ok := t.(*types.Basic); ok && b.Kind() == types.Invalid {
+		return nil
+	}
+	return zeroValue(t)
 }
